@@ -406,7 +406,14 @@ def naming(eng: Engine, ctx: Ctx, rid: str, model: DecoderModel):
     sep, spec = SH.decoder_suffix_format(eng)
     anamT = ("param", model.anam)
     n = 0
-    loops = [(lid, info) for lid, info in se.loop_info.items() if info.get("iter") == model.idxp and not info.get("comp")]
+    def over_index(it):
+        """The loop runs over the index stack: directly, or by position `for k in range(len(index))` (the evaluator reads index[k] as the element)."""
+        if it == model.idxp:
+            return True
+        return (it is not None and it[0] == "call" and it[2] == ("builtin", "range") and len(it[3]) == 1 and it[3][0][0] == "call" and it[3][0][2] == ("builtin", "len")
+                and it[3][0][3] == (model.idxp,))
+
+    loops = [(lid, info) for lid, info in se.loop_info.items() if over_index(info.get("iter")) and not info.get("comp")]
     loc = eng.loc(f, f.node)
     name_terms = set()
     if len(loops) == 1:
@@ -786,6 +793,10 @@ def groups(eng: Engine, ctx: Ctx, rid6: str, rid7: str, rid8: str, model: Decode
         pushes = [e for e in se.effects if e.kind == "call" and e.term[2] == ("attr", idx0, "append") and e.term[3] == (("const", 0),) and not e.loops]
         pops = [e for e in se.effects if e.kind == "call" and e.term[2][0] == "attr" and e.term[2][2] == "pop" and not e.term[3] and not e.loops]
         sets = [e for e in se.effects if e.kind == "setitem" and e.loops == (lid,) and e.target[2] == ("const", -1)]
+        if not sets and len(pushes) == 1:
+            # the position of the new level remembered before the push: `level = len(index); index.append(0); ... index[level] = i` addresses the last element
+            sets = [e for e in se.effects if e.kind == "setitem" and e.loops == (lid,) and e.target[2][0] == "call" and e.target[2][2] == ("builtin", "len") and e.target[2][3] == (idx0,)
+                    and e.target[2][1] < pushes[0].term[1]]
         elem = ("elem", it, lid)
         want_idx = elem if first == 1 else (("bin", "+", elem, ("const", 1 - first)) if first is not None and first < 1 else None)
         oki = (len(pushes) == 1 and len(pops) == 1 and len(sets) == 1 and want_idx is not None and sets[0].term == want_idx and pushes[0].seq < sets[0].seq < pops[0].seq
